@@ -6,6 +6,7 @@ package main
 import (
 	"fmt"
 	"go/types"
+	"sort"
 	"strings"
 )
 
@@ -315,6 +316,27 @@ func (V *Verifier) initGhostFuncs() {
 						continue
 					}
 					cs = append(cs, ev.equal(rv, ev.x.flat(ev.cur, a[j])))
+				}
+			}
+			return boolV(sAnd(cs...))
+		},
+		// hookOthersUnchanged("Method", old(HookN), old(HookT), old(HookArgs)): every other hook's call count, call time and
+		// recorded arguments are what they were
+		"hookOthersUnchanged": func(ev *Ev, a []Val) Val {
+			m := hookName(ev, a[0])
+			ord := fmt.Sprint(hookOrd[m])
+			i := ev.x.bound("h", "Int")
+			cs := []string{fmt.Sprintf("(forall ((%s Int)) (=> (not (= %s %s)) (and (= (select %s %s) (select %s %s)) (= (select %s %s) (select %s %s)))))",
+				i, i, ord, tm(ev.cur.ghost["HookN"]), i, tm(a[1]), i, tm(ev.cur.ghost["HookT"]), i, tm(a[2]), i)}
+			curA, oldA := ev.cur.ghost["HookArgs"].(St), a[3].(St)
+			var names []string
+			for k := range curA.F {
+				names = append(names, k)
+			}
+			sort.Strings(names)
+			for _, k := range names {
+				if k != m {
+					cs = append(cs, ev.x.eqV(curA.F[k], oldA.F[k]))
 				}
 			}
 			return boolV(sAnd(cs...))
